@@ -15,7 +15,8 @@ THEOREMS = ["ssRight_iff", "ssLeft_iff", "extent_var_correct", "one_le_ssRight",
             "extent_fixed_sound", "extent_empty_var", "extent_empty_fixed", "shortest_cover", "gsFetch_correct",
             "gsFetch_empty", "parseRegion_bounds", "parseRegion_defaults", "lift_run", "extent_table_correct",
             "extent_table_empty", "regionToExtent_ok", "gsFetchAbs_ok", "regionToExtentIdx_eq",
-            "pixelsFetch_correct", "pixelsFetch_ok", "offset_ok", "mem_binsSlice", "binsSlice_labels"]
+            "pixelsFetch_correct", "pixelsFetch_ok", "offset_ok", "mem_binsSlice", "binsSlice_labels",
+            "regionOfTriple_ok", "regionOfTriple_reject", "regionOfTriple_unknown", "coolerExtent_ok"]
 LEVELS = {"table": "top", "extent_unit": "unit", "float_division": "unit", "bounds": "unit"}
 DESCRIBE = {
     "table": "one created cooler per bin table; for EVERY (chrom,s,e), 0<=s<=e<=L, as tuple / 'c:s-e' string / open-ended "
@@ -618,7 +619,7 @@ def escalate(name, case, rng):
         r = run_check(_table, c)
         if r:
             return {"check": "table", "case": c, "result": r}
-    for bins in itertools.chain(CORPUS, all_segmentations(5, 2)):
+    for bins in itertools.chain(CORPUS, all_segmentations(4, 2)):
         c = table_case(bins, stride=4, kind="escalation", npairs=2)
         r = run_check(_table, c)
         if r:
